@@ -712,7 +712,9 @@ theorem header_roundtrip (h : Header) (hwf : HeaderWF h) :
   refine ⟨[4 * 16 + (headerLen + options.length) / 4 % 16, u8 tos] ++ be16 totalLen ++ be16 id ++
       be16 (fragOff % 8192 + flags * 8192) ++ [u8 ttl, u8 protocol] ++ be16 cksum ++
       [s0, s1, s2, s3] ++ [d0, d1, d2, d3] ++ options, ?_, ?_, ?_⟩
-  · simp only [Header.marshal, hlen, if_false, isV4]
+  · have hopt : ¬ (options.length % 4 ≠ 0 ∨ headerLen + options.length > 60) := by
+      simp only [headerLen]; omega
+    simp only [Header.marshal, hlen, if_false, isV4, hopt]
     simp [last4]
   · simp [be16]; omega
   · have hq : (headerLen + options.length) / 4 % 16 * 4 = 20 + options.length := by
@@ -736,6 +738,21 @@ theorem header_roundtrip (h : Header) (hwf : HeaderWF h) :
     unfold u8 at *
     refine ⟨?_, ?_, ?_, ?_, ?_, ?_, ?_, ?_, ?_, ?_⟩
     all_goals omega
+
+/-- **`Header.Marshal` refuses options the 4-bit header length cannot represent** (repaired: before, a
+length that is not a multiple of 4 or a header longer than 60 bytes was encoded with a wrong IHL and the
+options did not survive `Parse`). -/
+theorem header_marshal_options (h : Header) (w : List Nat) (hm : h.marshal = .ok w) :
+    h.options.length % 4 = 0 ∧ h.options.length ≤ 40 := by
+  unfold Header.marshal at hm
+  split at hm
+  · simp at hm
+  · simp only at hm
+    split at hm
+    · simp at hm
+    · rename_i hc
+      simp only [headerLen] at hc
+      omega
 
 /-! ### Part F: constants and the `parseFns` table regenerated from the Go source -/
 
